@@ -86,7 +86,7 @@ class Run:
 
 
 def workdir(prop):
-    d = os.path.join(VERIF, "build", "work", prop)
+    d = os.path.join(os.environ.get("VERIF_WORK", os.path.join(VERIF, "build", "work")), prop)
     os.makedirs(d, exist_ok=True)
     return d
 
@@ -261,8 +261,9 @@ class Result:
         }
         if not self.cov["samples"]:
             self.cov["samples"].append("(no case recorded)")
-        os.makedirs(os.path.join(VERIF, "evidence"), exist_ok=True)
-        with open(os.path.join(VERIF, "evidence", self.prop + ".json"), "w") as f:
+        evdir = os.environ.get("VERIF_EVIDENCE_DIR", os.path.join(VERIF, "evidence"))
+        os.makedirs(evdir, exist_ok=True)
+        with open(os.path.join(evdir, self.prop + ".json"), "w") as f:
             json.dump(ev, f, indent=1, default=str)
         for fid, (what, n) in sorted(self.known.items()):
             print("KNOWN-FINDING: property=%s %s: %s (%d occurrence(s) this run)" % (self.prop, fid, what, n))
@@ -274,7 +275,7 @@ class Result:
 
 
 def save_replay(prop, name, obj):
-    d = os.path.join(VERIF, "build", "replay", prop)
+    d = os.path.join(os.environ.get("VERIF_WORK", os.path.join(VERIF, "build")), "replay", prop) if os.environ.get("VERIF_WORK") else os.path.join(VERIF, "build", "replay", prop)
     os.makedirs(d, exist_ok=True)
     p = os.path.join(d, name + ".json")
     with open(p, "w") as f:
